@@ -13,6 +13,11 @@ func unknownNumber(r *rng, msg *Msg) protowire.Number {
 		known[f.Num] = true
 	}
 	cands := []int32{1, 2, 3, 5, 15, 16, 17, 31, 63, 64, 100, 2047, 2048, 19000, 1 << 20, 1<<29 - 1}
+	for _, f := range msg.Fields { // numbers that alias a known one modulo 64 (bit-mask wrap-around)
+		if f.Num < 64 {
+			cands = append(cands, f.Num+64, f.Num+128)
+		}
+	}
 	for tries := 0; tries < 50; tries++ {
 		var n int32
 		if r.intn(3) == 0 {
